@@ -15,6 +15,9 @@ Tie to the code, on real `dfols.solve(..., projections=[...])` runs traced by mo
 Search: the property stated directly on the recorded run.
 """
 import math
+import os
+for _v in ("OMP_NUM_THREADS", "OPENBLAS_NUM_THREADS", "MKL_NUM_THREADS"):   # tiny matrices: BLAS threads only burn CPU
+    os.environ.setdefault(_v, "1")
 import numpy as np
 import core
 from props import dykstra_common as dc
@@ -340,7 +343,8 @@ def trace_line(n, ann):
 
 def run_suite(ctx, nruns, suite, with_lean):
     dfols = core.import_dfols()
-    stats = {"runs": 0, "ok": 0, "skipped_initdirs_RuntimeError": 0, "timeouts": 0, "raised_other": 0, "evals": 0, "dyk_calls": 0, "dyk_calls_unrecorded_ball_last": 0,
+    alarm = ctx.scale(5, 20)      # slow runs are cut; the recorded prefix is still a prefix of a real run and is checked
+    stats = {"runs": 0, "ok": 0, "skipped_initdirs_RuntimeError": 0, "timeouts": 0, "alarm_s": alarm, "raised_other": 0, "evals": 0, "dyk_calls": 0, "dyk_calls_unrecorded_ball_last": 0,
              "box_last_calls": 0, "evals_checked_bound": 0, "evals_from_capped_call": 0, "evals_repeat_first": 0,
              "x0_replaced": 0, "max_dist_over_bound": 0.0, "by_restarts": {}, "by_x0": {}, "with_bounds": 0, "flags": {},
              "other_errors": []}
@@ -349,7 +353,7 @@ def run_suite(ctx, nruns, suite, with_lean):
     for i in range(nruns):
         rng = np.random.default_rng([ctx.seed, suite, i])
         pb = gen_problem(rng)
-        tr = traced_run(dfols, pb)
+        tr = traced_run(dfols, pb, alarm=alarm)
         stats["runs"] += 1
         if i == 0:
             stats["patched_modules"] = tr.patched
@@ -394,9 +398,11 @@ def run_suite(ctx, nruns, suite, with_lean):
 
 
 def correspondence(ctx):
-    nruns = ctx.scale(40, 400)
+    nruns = ctx.scale(35, 150)
     stats, results, lines, owner = run_suite(ctx, nruns, 9, with_lean=True)
-    replies = core.run_driver(lines, main=dc.MAIN) if lines else []
+    replies = []
+    for a in range(0, len(lines), 2000):
+        replies += core.run_driver(lines[a:a + 2000], main=dc.MAIN)
     st = {"trace_lines": 0, "trace_accepted": 0, "call_lines": 0, "call_near_tie_skips": 0, "call_mismatches": 0,
           "trace_disagreements": 0, "max_rel_cI_dev": 0.0}
     nb = 0
@@ -446,7 +452,7 @@ def correspondence(ctx):
 
 
 def search(ctx):
-    nruns = ctx.scale(110, 1500) * getattr(ctx, "boost", 1)
+    nruns = ctx.scale(45, 450) * getattr(ctx, "boost", 1)
     stats, results, _l, _o = run_suite(ctx, nruns, 909, with_lean=False)
     seen = {}
     for (i, pb, tr, fails, info) in results:
